@@ -6,6 +6,7 @@ import (
 	"bytes"
 	"errors"
 	"io"
+	"sync"
 )
 
 // SegReader hands out at most Sched[i] bytes on the i-th Read (cycling), min 1.
@@ -129,4 +130,52 @@ func Sched(kind int, drawn []int) []int {
 		}
 		return drawn
 	}
+}
+
+// BlockPipe is an unbounded in-memory byte pipe whose Read blocks until data arrives or the
+// pipe is closed (then io.EOF). Safe for one reader and many writers.
+type BlockPipe struct {
+	mu     sync.Mutex
+	cond   *sync.Cond
+	buf    []byte
+	closed bool
+}
+
+func NewBlockPipe() *BlockPipe {
+	p := &BlockPipe{}
+	p.cond = sync.NewCond(&p.mu)
+	return p
+}
+
+func (p *BlockPipe) Write(b []byte) (int, error) {
+	p.mu.Lock()
+	defer p.mu.Unlock()
+	if p.closed {
+		return 0, ErrClosed
+	}
+	p.buf = append(p.buf, b...)
+	p.cond.Broadcast()
+	return len(b), nil
+}
+
+func (p *BlockPipe) Read(b []byte) (int, error) {
+	p.mu.Lock()
+	defer p.mu.Unlock()
+	for len(p.buf) == 0 && !p.closed {
+		p.cond.Wait()
+	}
+	if len(p.buf) == 0 {
+		return 0, io.EOF
+	}
+	n := copy(b, p.buf)
+	p.buf = p.buf[n:]
+	return n, nil
+}
+
+func (p *BlockPipe) Close() error {
+	p.mu.Lock()
+	p.closed = true
+	p.cond.Broadcast()
+	p.mu.Unlock()
+	return nil
 }
